@@ -32,7 +32,7 @@ RULE = ('base: all (file, result time, exposed table, printed row, column) cells
         'times, all rows at times > 0, first row at time 0, last row at last time), every cell of every table at every '
         'time re-compared; pair: ordered pairs (A, B) of shipped files, including A = B, both opened and alive, every '
         'time of A then of B read forwards and backwards, every exposed cell compared with the reference and the '
-        'untouched listing compared with its snapshot at every arrival.; primed: files x primers {none, all shipped incon files, a t2data file, a mulgrid file (both with either read function), another simulator\'s listing, all of these}, each in a fresh interpreter, the listing opened after the primer, read forwards and backwards and every exposed cell compared with the reference.  Every opened file is read forwards and then backwards; the unperturbed file also with every '
+        'untouched listing compared with its snapshot at every arrival; history: ' + 'all ordered pairs (A, B) of the 37 shipped listings, one fresh interpreter per A: all B opened, A moved through all its times, every B opened before re-read at all times and every B opened afterwards compared with the print and with the tables the earlier object exposes; mode-alone: files x 4 addressing modes, one object per mode, whole table read through that mode at every arrival; ' + 'primed: files x primers {none, all shipped incon files, a t2data file, a mulgrid file (both with either read function), another simulator\'s listing, all of these}, each in a fresh interpreter, the listing opened after the primer, read forwards and backwards and every exposed cell compared with the reference.  Every opened file is read forwards and then backwards; the unperturbed file also with every '
         'time reached from index 0 by its negative index / last().  A case is one compared cell (base), one (subset, time, table) comparison (skip) or one variant '
         'file (perturbed); non-trivial = it involves at least one printed number (base/skip) or at least one replaced '
         'cell (perturbed); distinct = distinct (file, time, table, row, column) / (file, subset, time, table) / (file, '
@@ -76,6 +76,16 @@ BOUNDS['thorough']['pairs'] = 'all ordered pairs (incl. the same file twice) of 
 BOUNDS['quick']['primed'] = 'files with ragged tables and one representative per simulator directory x 6 primers, one fresh process each'
 BOUNDS['thorough']['primed'] = 'all shipped listings x 6 primers, one fresh process each'
 BOUNDS['quick']['reading_orders'] = READING_ORDERS
+HISTORY = ('all 37 x 37 ordered pairs (A, B) of shipped listings, one fresh process per A: every B opened with default arguments '
+           '(all alive), A opened and moved through all its times (index forwards, prev() back, last()), then every B opened '
+           'before read as it stands, re-read at index 0, forwards and back against the print (columns also by name), and every '
+           'B opened once more: same exposed tables as the earlier object, all times against the print')
+MODE_ALONE = ('every file x addressing mode {column by name, row by index, row by name, DataFrame when pandas is installed}: a '
+              'fresh object on which only that mode is used, the whole table read through it at every arrival forwards and back; '
+              'the cross-mode comparison of the base pass is made at every time of the forward pass on one object')
+for _t in ('quick', 'thorough'):
+    BOUNDS[_t]['history'] = HISTORY
+    BOUNDS[_t]['mode_alone'] = MODE_ALONE
 BOUNDS['thorough']['reading_orders'] = READING_ORDERS
 LEVEL_NOTE = ('Trusted: ref/listtok.py (structure and tokens) and ref/fortnum.py (values). Only the shipped files and their '
               'width-preserving value rewrites are claimed; the quick tier perturbs only the files below 300 kB and leaves out the '
@@ -1150,7 +1160,7 @@ def hist_child_main():
 
     def add(role, rel, clause, table, text):
         out['viol'].append(('C05|history|%s|%s|%s|after=%s|%s' % (clause, ctxs[rel].sim, table, simA, role),
-                            '%s (%s; %s moved through all its result times in between): %s' % (rel, role, relA, text),
+                            '%s (%s; before it, in this process: %s moved through all its result times, then the shipped listings that sort before this one read completely): %s' % (rel, role, relA, text),
                             {'kind': 'hist', 'file': relA}))
 
     before = {}
